@@ -112,12 +112,15 @@ class _Lock:
 
 
 def regenerate():
-    """Regenerate Hdc/Gen/* from /repo's working tree (translators)."""
-    tr = ROOT / "harness" / "translate_dekad.py"
-    if tr.exists():
-        r = subprocess.run([sys.executable, str(tr)], capture_output=True, text=True)
-        return r.returncode == 0, (r.stdout + r.stderr)[-2000:]
-    return True, ""
+    """Regenerate Hdc/Gen/* from /repo's working tree (translators). Returns (ok, log)."""
+    ok, log = True, ""
+    for name in ("translate_dekad.py", "summarise_effects.py"):
+        tr = ROOT / "harness" / name
+        if tr.exists():
+            r = subprocess.run([sys.executable, str(tr)], capture_output=True, text=True)
+            log += (r.stdout + r.stderr)[-1500:]
+            ok = ok and r.returncode == 0
+    return ok, log
 
 
 def ensure_built():
